@@ -23,3 +23,5 @@ pub(crate) use kzg10::Commitment;
 pub use kzg10::PublicParameters;
 #[cfg(feature = "alloc")]
 pub(crate) use kzg10::{CommitKey, OpeningKey};
+#[cfg(feature = "verif")]
+pub(crate) use kzg10::proof::Proof as KzgProof;
